@@ -815,9 +815,10 @@ func c06blocks(thorough bool) []c06block {
 	rtDisk := c06axes{c06batchAll, []int{1, 3}, true, []bool{false}, []int{1, 2}, []bool{true}, ck}.cfgs
 	if !thorough {
 		add(c06block{Name: "mem/full", Alphabet: "A36", Nmax: 2, AllOrders: true, Cfgs: full(false, both)})
-		add(c06block{Name: "mem/full", Alphabet: "A24", Nmin: 3, Nmax: 3, AllOrders: true, Cfgs: full(false, both)})
+		add(c06block{Name: "mem/full", Alphabet: "A12", Nmin: 3, Nmax: 3, AllOrders: true, Cfgs: full(false, both)})
+		add(c06block{Name: "mem/full-parsed", Alphabet: "A24", Nmin: 3, Nmax: 3, AllOrders: true, Cfgs: full(false, []bool{true})})
 		add(c06block{Name: "mem/options", Alphabet: "A36", Nmax: 2, AllOrders: true,
-			Cfgs: c06axes{c06batchEnds, []int{1, 2, 3}, false, both, []int{1, 2}, both, other}.cfgs})
+			Cfgs: c06axes{c06batchEnds, []int{1, 2, 3}, false, both, []int{1, 2}, []bool{true}, other}.cfgs})
 		add(c06block{Name: "disk/full", Alphabet: "A24", Nmax: 2, AllOrders: true, Cfgs: full(true, []bool{true})})
 		add(c06block{Name: "disk/3", Alphabet: "A12", Nmin: 3, Nmax: 3,
 			Cfgs: c06axes{c06batchEnds, []int{1, 2, 3}, true, []bool{false}, []int{1, 2}, []bool{true}, ck}.cfgs})
@@ -863,11 +864,25 @@ func c06enumerate(r *verifkit.Result, thorough bool, visit func(k, j int, blk st
 	k := 0
 	stop := false
 	var desc []string
-	for _, blk := range c06blocks(thorough) {
-		types := c06alphabet(blk.Alphabet)
+	blocks := c06blocks(thorough)
+	nmax := 0
+	for _, blk := range blocks {
 		desc = append(desc, fmt.Sprintf("%s: %s n=%d..%d orders=%v reps=%d configs(n=max)=%d text=%v", blk.Name, blk.Alphabet,
 			blk.Nmin, blk.Nmax, blk.AllOrders, blk.Reps, len(blk.Cfgs(blk.Nmax)), blk.Texts))
-		for n := blk.Nmin; n <= blk.Nmax && !stop; n++ {
+		if blk.Nmax > nmax {
+			nmax = blk.Nmax
+		}
+	}
+	r.Bound("blocks", desc)
+	r.Bound("sequences", c06seqs)
+	r.Bound("alphabets", "A36 = 2 seq x c{absent,x,y} x count{1,2} x k{absent,scalar,merged map}; A24 = A36 without c=y; A12 = 2 seq x c{absent,x} x (count,k) in {(1,absent),(2,scalar),(2,merged)}; A6 = A12 without c")
+	// small inputs of every block first: a run stopped by its deadline has covered every block up to some size
+	for n := 0; n <= nmax && !stop; n++ {
+		for _, blk := range blocks {
+			if n < blk.Nmin || n > blk.Nmax || stop {
+				continue
+			}
+			types := c06alphabet(blk.Alphabet)
 			cfgs := blk.Cfgs(n)
 			c06multisets(len(types), n, func(ms []int) {
 				if stop {
@@ -905,9 +920,6 @@ func c06enumerate(r *verifkit.Result, thorough bool, visit func(k, j int, blk st
 			})
 		}
 	}
-	r.Bound("blocks", desc)
-	r.Bound("sequences", c06seqs)
-	r.Bound("alphabets", "A36 = 2 seq x c{absent,x,y} x count{1,2} x k{absent,scalar,merged map}; A24 = A36 without c=y; A12 = 2 seq x c{absent,x} x (count,k) in {(1,absent),(2,scalar),(2,merged)}; A6 = A12 without c")
 }
 
 // ---- process structure -------------------------------------------------------------------------
@@ -1225,9 +1237,6 @@ func TestVerifC06(t *testing.T) {
 			mode = "disk"
 		}
 		site := "uniq/" + mode
-		if last.Case.Kind == "roundtrip" {
-			site = "roundtrip/" + mode
-		}
 		r.Eval(1)
 		r.Violate(site+"/crash:"+fn, fmt.Sprintf("%s: the process dies: %s", c06caseString(last.Case), excerpt), last.Case)
 		if replay {
